@@ -97,7 +97,7 @@ Lemma rrel_panic {A B} (R : A -> B -> Prop) r r' m : rrel R r r' -> (r = Panic m
 Proof.
   destruct r as [a|m0], r' as [a'|m0']; cbn [rrel]; intros H; try contradiction.
   - split; discriminate.
-  - subst. tauto.
+  - subst m0'. split; intros E; injection E as ->; reflexivity.
 Qed.
 
 (* configurations that differ only in the order of the hint map *)
@@ -305,6 +305,9 @@ Section RenderPerm.
     intros H. induction H as [|x x' l l' Hx _ IH]; cbn [isort_by]; [constructor|].
     apply insert_by_erel; assumption.
   Qed.
+
+  Lemma Forall2_len {A B} (R : A -> B -> Prop) l l' : Forall2 R l l' -> length l = length l'.
+  Proof. induction 1; cbn [length]; congruence. Qed.
 
   Lemma dict_pass2_rel several l l' :
     Forall2 erel l l' ->
